@@ -1,2 +1,79 @@
-/- stub: line-protocol driver for C01 (to be written) -/
-def main : IO Unit := pure ()
+/- Line-protocol driver for C01 (imports only Model/Gen modules).
+   `exceptions`                      -> one line per (production, stack) failing the local check, then `END`
+   `wf`                              -> effect rows that are not well formed, then `END`
+   `T <callback> <n> <thrown> F T R S  F' T' R' S'`
+                                     -> `ok` | `MISMATCH ...` : predicted vs observed stack sizes of one traced call of
+                                        the real library (harness/c01_trace.cpp) -/
+import UtapModel.Model.C01Effect
+open UtapModel.C01 UtapModel.Gen.Grammar
+
+def sigS (s : Stack) (B : NT) : Sig := (sigOf B).get s
+def effS (s : Stack) (cb : CB) : Eff := effect cb s
+
+def exceptionLines : List String :=
+  prods.flatMap (fun p =>
+    (Stack.all.filter (fun s => !lbProd (sigS s) (effS s) p)).map (fun s =>
+      s!"EXC {prodKey p.id} {s.name} id={p.id} name={prodName p.id}"))
+
+def wfLines : List String :=
+  CB.all.flatMap (fun cb => (Stack.all.filter (fun s => !(effect cb s).wf)).map (fun s => s!"BADROW {cb.name} {s.name}"))
+
+def observed : List Stack := [.F, .T, .R, .S]
+
+def checkTrace (ws : List String) : String :=
+  match ws with
+  | name :: rest =>
+    match CB.ofName? name, rest.mapM String.toInt? with
+    | some cb, some (n :: thrown :: nums) =>
+      if nums.length != 8 then "bad-op" else
+      let before := nums.take 4
+      let after := nums.drop 4
+      let n' := n.toNat
+      let probs := (List.range 4).filterMap (fun i =>
+        let s := observed.getD i .F
+        let ef := effect cb s
+        let b := before.getD i 0
+        let a := after.getD i 0
+        let need : Int := ((ef.need0 + ef.needN * n' : Nat) : Int)
+        let dn := ef.d0 + ef.dN * n
+        let dt := ef.t0 + ef.tN * n
+        if ef.reset then (if a = 0 ∨ a = b then none else some s!"{s.name}: reset expected, {b}->{a}")
+        else if need > b then some s!"{s.name}: needs {need} has {b}"
+        else if thrown = 0 then (if a = b + dn then none else some s!"{s.name}: {b}->{a} predicted {b + dn}")
+        else (if (ef.canThrow ∧ a = b + dt) ∨ a = b + dn then none else some s!"{s.name}: {b}->{a} (thrown) predicted {b + dt}"))
+      -- the virtual stacks of `types`: n is the value of the static counter at the call
+      let vprobs :=
+        if cb.name == "type_array_of_type" then
+          (if n < 1 then ["types: needs 1 has 0"] else []) ++
+          (if before.getD 1 0 - n < 1 then [s!"typeBase: needs 1 has {before.getD 1 0 - n}"] else [])
+        else if cb.name == "type_array_of_size" then
+          (if before.getD 1 0 - n < 1 then [s!"typeBase: needs 1 has {before.getD 1 0 - n}"] else [])
+        else []
+      match probs ++ vprobs with
+      | [] => "ok"
+      | l => "MISMATCH " ++ name ++ " " ++ String.intercalate "; " l
+    | none, _ => "UNKNOWN-CALLBACK " ++ name
+    | _, _ => "bad-op"
+  | [] => "bad-op"
+
+def stepLine (line : String) (out : IO.FS.Stream) : IO Unit := do
+  let ws := (line.trimAscii.toString.splitOn " ").filter (· ≠ "")
+  match ws with
+  | ["exceptions"] => do
+      for l in exceptionLines do out.putStrLn l
+      out.putStrLn "END"
+  | ["wf"] => do
+      for l in wfLines do out.putStrLn l
+      out.putStrLn "END"
+  | "T" :: rest => out.putStrLn (checkTrace rest)
+  | _ => out.putStrLn "bad-op"
+
+partial def loop (h : IO.FS.Stream) (out : IO.FS.Stream) : IO Unit := do
+  let line ← h.getLine
+  if line.isEmpty then return ()
+  stepLine line out
+  loop h out
+
+def main : IO Unit := do
+  let out ← IO.getStdout
+  loop (← IO.getStdin) out
